@@ -2803,4 +2803,134 @@ theorem mapclear_spec {o : Ops K} {h : HMap K V} (hi : Inv o h) :
       · rfl
     exact ⟨Or.inl hwf, abs_nil_of_count (Or.inl hwf) rfl⟩
 
+/-! ## histories -/
+
+inductive Op (K V : Type) where
+  | assign (k : K) (v : V)
+  | access (k : K)
+  | delete (k : K)
+  | clear
+  | len
+
+inductive Obs (V : Type) where
+  | done
+  | val (v : Option V)      -- `none`: zero value, ok = false
+  | len (n : Nat)
+  | panic                   -- "hash of unhashable type"
+
+/-- one operation on the table; a panic leaves the table as it was -/
+def stepModel (o : Ops K) (h : HMap K V) : Op K V → Except Err (Obs V × HMap K V)
+  | .assign k v =>
+    match mapassign o h k v with
+    | .ok h' => .ok (.done, h')
+    | .error .unhashable => .ok (.panic, h)
+    | .error e => .error e
+  | .access k =>
+    match mapaccess o h k with
+    | .ok (r, h') => .ok (.val (r.map (·.val)), h')
+    | .error .unhashable => .ok (.panic, h)
+    | .error e => .error e
+  | .delete k =>
+    match mapdelete o h k with
+    | .ok h' => .ok (.done, h')
+    | .error .unhashable => .ok (.panic, h)
+    | .error e => .error e
+  | .clear => .ok (.done, mapclear h)
+  | .len => .ok (.len h.count, h)
+
+def runModel (o : Ops K) : HMap K V → List (Op K V) → Except Err (List (Obs V) × HMap K V)
+  | h, [] => .ok ([], h)
+  | h, op :: ops =>
+    match stepModel o h op with
+    | .error e => .error e
+    | .ok (ob, h') =>
+      match runModel o h' ops with
+      | .error e => .error e
+      | .ok (obs, h'') => .ok (ob :: obs, h'')
+
+/-- the same operation on the specification -/
+def stepSpec (o : Ops K) (m : AList K V) : Op K V → Obs V × AList K V
+  | .assign k v => if o.unhashable k then (.panic, m) else (.done, insert o.eq o.needKeyUpdate k v m)
+  | .access k => if o.unhashable k then (.panic, m) else (.val (lookup o.eq k m), m)
+  | .delete k => if o.unhashable k then (.panic, m) else (.done, erase o.eq k m)
+  | .clear => (.done, [])
+  | .len => (.len (len m), m)
+
+def runSpec (o : Ops K) : AList K V → List (Op K V) → List (Obs V) × AList K V
+  | m, [] => ([], m)
+  | m, op :: ops =>
+    let (ob, m') := stepSpec o m op
+    let (obs, m'') := runSpec o m' ops
+    (ob :: obs, m'')
+
+/-- a key type whose hasher cannot panic has no unhashable keys (only interface-holding key types do) -/
+def PanicOK (o : Ops K) : Prop := o.hashMightPanic = false → ∀ k, o.unhashable k = false
+
+
+/-! ## range loops -/
+
+/-- a step of a running `for k, v := range m` loop: the body mutates the map, or the loop asks for the next entry -/
+inductive LoopStep (K V : Type) where
+  | mutate (op : Op K V)
+  | next
+
+/-- what a loop run records: every yield with the table at that moment, every table a mutation produced -/
+inductive LoopEv (K V : Type) where
+  | yield (kv : K × V) (h : HMap K V)
+  | table (h : HMap K V)
+
+def LoopEv.tbl : LoopEv K V → HMap K V
+  | .yield _ h => h
+  | .table h => h
+
+/-- run the steps of a range loop; `true` = the loop has ended (`MapIterNext` returned `ok = false`) -/
+def runLoopFrom (o : Ops K) : HMap K V → Iter K V → List (LoopStep K V) → Except Err (List (LoopEv K V) × Bool)
+  | _, _, [] => .ok ([], false)
+  | h, it, .mutate op :: rest =>
+    match stepModel o h op with
+    | .error e => .error e
+    | .ok (_, h') =>
+      match runLoopFrom o h' it rest with
+      | .error e => .error e
+      | .ok (tr, ended) => .ok (.table h' :: tr, ended)
+  | h, it, .next :: rest =>
+    match mapIterNext o (.ref h) it with
+    | .error e => .error e
+    | .ok (none, _) => .ok ([], true)
+    | .ok (some kv, it') =>
+      match runLoopFrom o h it' rest with
+      | .error e => .error e
+      | .ok (tr, ended) => .ok (.yield kv h :: tr, ended)
+
+/-- `for k, v := range m { … }`: `NewMapIter`, the first `MapIterNext`, then the steps -/
+def runLoop (o : Ops K) (h : HMap K V) (steps : List (LoopStep K V)) : Except Err (List (LoopEv K V) × Bool) :=
+  match newMapIter o (.ref h) with
+  | .error e => .error e
+  | .ok (it, .ref h') =>
+    match runLoopFrom o h' it (.next :: steps) with
+    | .error e => .error e
+    | .ok (tr, ended) => .ok (.table h' :: tr, ended)
+  | .ok (_, .nil _) => .ok ([], true)
+
+/-- "no deleted entry": whatever a range loop yields is an entry of the map at that moment -/
+def YieldsLive (o : Ops K) (V : Type) [Inhabited V] : Prop :=
+  ∀ (h : HMap K V) (steps : List (LoopStep K V)) (tr : List (LoopEv K V)) (ended : Bool), Inv o h →
+    runLoop o h steps = .ok (tr, ended) → ∀ kv hy, LoopEv.yield kv hy ∈ tr → kv ∈ abs hy
+
+/-- "no entry twice": two yields of equal keys are separated by a moment at which the key was not in the map -/
+def NoTwice (o : Ops K) (V : Type) [Inhabited V] : Prop :=
+  ∀ (h : HMap K V) (steps : List (LoopStep K V)) (tr : List (LoopEv K V)) (ended : Bool), Inv o h →
+    runLoop o h steps = .ok (tr, ended) →
+    ∀ (i j : Nat) (k1 k2 : K) (v1 v2 : V) (h1 h2 : HMap K V), i < j →
+      tr[i]? = some (.yield (k1, v1) h1) → tr[j]? = some (.yield (k2, v2) h2) → o.eq k1 k2 = true →
+      ∃ l hl, i < l ∧ l < j ∧ tr[l]? = some (.table hl) ∧ lookup o.eq k1 (abs hl) = none
+
+/-- "every entry present for the whole loop exactly once": when the loop has ended, a key that was in the map at
+    every recorded moment has been yielded -/
+def YieldsAll (o : Ops K) (V : Type) [Inhabited V] : Prop :=
+  ∀ (h : HMap K V) (steps : List (LoopStep K V)) (tr : List (LoopEv K V)), Inv o h →
+    runLoop o h steps = .ok (tr, true) →
+    ∀ k : K, (∀ ev ∈ tr, lookup o.eq k (abs ev.tbl) ≠ none) →
+      ∃ k' v' hy, LoopEv.yield (k', v') hy ∈ tr ∧ o.eq k k' = true
+
 end LlgoVerif.HMap
